@@ -14,7 +14,8 @@ PROP = "C14"
 LEAN_MODULE = "Ztr.Props.C14"
 THEOREMS = ["Ztr.Discovery.C14_once", "Ztr.Discovery.C14_enum_independent_files",
             "Ztr.Discovery.C14_enum_independent_dirs", "Ztr.Discovery.C14_exact", "Ztr.Discovery.C14_winner_spec",
-            "Ztr.Discovery.C14_import_gate", "Ztr.Discovery.C14_ignore_folders"]
+            "Ztr.Discovery.C14_import_gate", "Ztr.Discovery.C14_module_name_has_package",
+            "Ztr.Discovery.C14_ignore_folders"]
 RULE = ("random directory trees (depth <= 4): identifier / non-identifier / ignored (.git, .svn, CVS, node_modules, "
         "__pycache__) directory names, packages with and without __init__.py, 'tests' / 'ftests' / other names, .py / "
         ".pyc / other extensions; files and directories are created in shuffled order; 1-3 (overlapping, repeated, "
@@ -41,15 +42,24 @@ class T(unittest.TestCase):
 """
 
 
-def gen_tree(rng, depth):
-    files = rng.sample(FILES, rng.randint(0, 6))
+TESTS_PKG_FILES = ["ftests.py", "tests.py", "test_a.py", "test_b.py", "testx.py", "atests.py", "helper.py",
+                   "test_c.pyc", "tests.pyc", "ftests.pyc", "ztests.py"]
+
+
+def gen_tree(rng, depth, base=None):
+    if base in ("tests", "ftests", "Tests") and rng.random() < 0.6:
+        # a tests package: names matching the tests pattern, the test-file pattern, both or neither, chosen so
+        # that the two passes over the directory listing disagree with the sorted order
+        files = ["__init__.py"] + rng.sample(TESTS_PKG_FILES, rng.randint(2, 6))
+    else:
+        files = rng.sample(FILES, rng.randint(0, 6))
     subs = []
     if depth > 0:
         stems = {f.split(".")[0] for f in files}
         for n in rng.sample(DIRS, rng.randint(0, 3)):
             if n in stems:
                 continue        # a module and a package of the same name: Python's import picks one of them
-            subs.append([n, gen_tree(rng, depth - 1)])
+            subs.append([n, gen_tree(rng, depth - 1, n)])
     return {"files": files, "subs": subs}
 
 
@@ -118,15 +128,20 @@ def statement_files(tree, base, env, prefix=()):
     return out
 
 
-def run(ctx):
+def run(ctx, n=None, module_gate_only=False):
     from zope.testrunner.find import find_test_files
     from zope.testrunner.options import get_options
     rng = ctx.rng
-    n = 100 if ctx.quick() else 3000
+    if n is None:
+        n = 100 if ctx.quick() else 3000
     queries = []
     infos = []
     for idx in range(n):
         tree = gen_tree(rng, rng.choice([1, 2, 3, 4]))
+        for _ in range(5):
+            if not module_gate_only or any(f.endswith(".py") and f != "__init__.py" for f in all_names(tree)):
+                break
+            tree = gen_tree(rng, rng.choice([2, 3, 4]))
         d = os.path.join(ctx.tmp, "disc%05d" % idx)
         materialize(tree, d, rng)
         dirs = [p for p in all_dirs(tree)]
@@ -138,10 +153,27 @@ def run(ctx):
             args += ["--path" if k % 2 == 0 else "--test-path", os.path.join(d, *r) if r else d]
         # get_options: test_path = [--test-path entries] + [--path entries]
         roots = [r for k, r in enumerate(roots) if k % 2 == 1] + [r for k, r in enumerate(roots) if k % 2 == 0]
-        tpat = rng.choice([None, None, "^f?tests$", "tests", "^test"])
+        roots_pkgs = [[] for _ in roots]
+        if module_gate_only and rng.random() < 0.7:
+            # the whole tree is mapped into a package, alone or after an overlapping plain search path
+            if rng.random() < 0.6:
+                roots, roots_pkgs, args = [], [], ["prog"]
+            pr_ = ()
+            pkg = rng.choice(["c14ns", "c14ns.sub"])
+            args += ["--package-path", d, pkg]
+            roots.append(pr_)
+            roots_pkgs.append(pkg.split("."))
+        elif rng.random() < 0.3:
+            # one more search path that maps a directory into a package
+            pr_ = rng.choice(dirs)
+            pkg = rng.choice(["c14ns", "c14ns.sub", "tests", "pkg"])
+            args += ["--package-path", os.path.join(d, *pr_) if pr_ else d, pkg]
+            roots.append(pr_)
+            roots_pkgs.append(pkg.split("."))
+        tpat = rng.choice([None, None, "^f?tests$", "tests", "^test", "^[fz]?tests$"])
         tfpat = rng.choice([None, None, "^test_", "a$"])
         usec = rng.random() < 0.2
-        mfilter = rng.choice([None, None, "tests", "!pkg", "test_a"])
+        mfilter = rng.choice([None, None, "tests", "!pkg", "test_a", "^c14ns", "!c14ns", "^tests$", r"^c14ns\.sub\.", "^pkg"])
         if tpat:
             args += ["--tests-pattern", tpat]
         if tfpat:
@@ -159,7 +191,12 @@ def run(ctx):
         env["ZTR_TRACE"] = trace
         env["PYTHONDONTWRITEBYTECODE"] = "1"
         imported = None
-        if idx % 4 == 0 and not usec:
+        if module_gate_only and mfilter is None:
+            mfilter = rng.choice(["tests", "!pkg", "^c14ns", "!c14ns", "^tests$", r"^c14ns\.", "^pkg", "^sub"])
+            args += ["-m", mfilter]
+            with contextlib.redirect_stdout(io.StringIO()):
+                options = get_options(list(args), [])
+        if (idx % 4 == 0 or module_gate_only) and not usec:
             pr = subprocess.run([common.PY, "-m", "zope.testrunner", "--list-tests"] + args[1:], cwd=ctx.tmp, env=env,
                                 stdout=subprocess.PIPE, stderr=subprocess.PIPE, timeout=120)
             out = pr.stdout.decode("utf-8", "replace")
@@ -187,7 +224,8 @@ def run(ctx):
         from zope.testrunner.filter import build_filtering_func
         acc = build_filtering_func(options.module)
         q = {"op": "discovery",
-             "roots": [{"path": [enc(c) for c in base_path + list(r)], "tree": jtree(subtree(tree, r))} for r in roots],
+             "roots": [{"path": [enc(c) for c in base_path + list(r)], "tree": jtree(subtree(tree, r)),
+                        "pkg": [enc(c) for c in pk]} for r, pk in zip(roots, roots_pkgs)],
              "identifier": [enc(s) for s in stems if re.match(r"[_a-z]\w*$", s, re.I)],
              "testsPat": [enc(s) for s in stems if tp(s)], "testFilePat": [enc(s) for s in stems if tfp(s)],
              "ignoreDir": [enc(s) for s in options.ignore_dir],
@@ -211,6 +249,8 @@ def run(ctx):
                   sample={"roots": case["roots"], "args": case["args"], "files": real_files[:6]})
         ctx.bump("files=%d" % min(len(real_files), 6))
         ctx.bump("roots=%d" % len(roots))
+        if "--package-path" in args:
+            ctx.bump("package-path")
         # ---- monitor: the statement
         env = {"tp": options.tests_pattern, "tfp": options.test_file_pattern, "ignore": set(options.ignore_dir),
                "usecompiled": usec}
@@ -233,7 +273,7 @@ def run(ctx):
             if len(set(imported)) != len(imported):
                 ctx.violation("a module is imported twice: %r" % imported, case, signature="C14:import-twice")
                 continue
-            rejected = [m for m in names if not acc(m)]
+            rejected = [m for m in names + list(failed_imports or []) if not acc(m)]
             if rejected:
                 ctx.violation("modules excluded by -m were imported: %r" % rejected, case, signature="C14:import-gate")
                 continue
